@@ -422,6 +422,16 @@ trxbufsize(const RegP *p)
     return bs - fs;
 }
 
+static inline size_t
+replyroom(const RegP *p, const RPFrame *f)
+{
+    /* The data of a read reply is stored behind the request's header, which
+     * itself sits behind the RPFrame instance at the start of the block. */
+    const size_t hs = (size_t)((unsigned char*)f->payload.data
+                               - (unsigned char*)f->raw.memory);
+    return p->alloc->blocksize - sizeof(RPFrame) - hs;
+}
+
 static inline uint32_t
 address_min(uint32_t a, uint32_t b)
 {
@@ -966,14 +976,14 @@ regp_process(RegP *p, const RPMaybeFrame *mf)
          * from the memory implementation. This removes the requirement of
          * allocating again, and eliminates some block memory waste. */
         if (p->memory.type == RP_MEMTYPE_16) {
-            const size_t maxsize = (p->alloc->blocksize - sizeof(RPFrame)) / 2;
+            const size_t maxsize = replyroom(p, mf->frame) / 2;
             if (maxsize < blocksize) {
                 ba.status = RP_RESP_ETXOVERFLOW;
             } else {
                 ba = p->memory.access.m16.read(addr, blocksize, buf);
             }
         } else {
-            const size_t maxsize = p->alloc->blocksize - sizeof(RPFrame);
+            const size_t maxsize = replyroom(p, mf->frame);
             if (maxsize < blocksize) {
                 ba.status = RP_RESP_ETXOVERFLOW;
             } else {
